@@ -313,15 +313,6 @@ def _tvl_op(self, arg, comparison, builtins=None):
     Default is the value specified by Qube.PREFER_BUILTIN_TYPES.
     """
 
-    # Return a Python bool if appropriate
-    if isinstance(comparison, bool):
-        if builtins is None:
-            builtins = Qube.PREFER_BUILTIN_TYPES
-        if builtins:
-            return comparison
-
-        comparison = Qube.BOOLEAN_CLASS(comparison)
-
     # Determine arg_mask, if any
     if isinstance(arg, Qube):
         arg_mask = arg._mask_
@@ -329,6 +320,21 @@ def _tvl_op(self, arg, comparison, builtins=None):
         arg_mask = arg.mask
     else:
         arg_mask = False
+
+    # Return a Python bool if appropriate
+    if isinstance(comparison, bool):
+        if builtins is None:
+            builtins = Qube.PREFER_BUILTIN_TYPES
+        if builtins:
+            return comparison
+
+        # A single truth value: the operands are shapeless or cannot be
+        # compared element by element. It is indeterminate if either operand
+        # is entirely masked, however that mask is represented.
+        comparison = Qube.BOOLEAN_CLASS(comparison)
+        comparison._set_mask_(bool(np.all(self._mask_)) or
+                              bool(np.all(arg_mask)))
+        return comparison
 
     mask = Qube.or_(self._mask_, arg_mask)
     if np.shape(mask) and np.shape(mask) != comparison._shape_:
